@@ -21,12 +21,11 @@
               src.GetChunk(id)  -> err |
               dst.StoreChunk(chunk)
 
-     ChunkStorage.StoreChunk:
+     ChunkStorage.StoreChunk (after "fix: ChunkStorage unmarks a chunk when checking the store for it fails"):
               if s.markProcessed(id) { return nil }        -- atomic under the mutex
-              has, err := s.ws.HasChunk(id); if err != nil || has { return err }   -- id stays marked on error
-              err = s.ws.StoreChunk(chunk)
-              if err != nil { s.unmarkProcessed(id) }      -- deferred
-              return err
+              defer func() { if err != nil { s.unmarkProcessed(id) } }()
+              has, err = s.ws.HasChunk(id); if err != nil || has { return err }    -- error: unmarked by the defer
+              return s.ws.StoreChunk(chunk)                                        -- error: unmarked by the defer
 
    A worker whose body returned an error returns it to the errgroup in a
    separate step (first error recorded, context cancelled).
@@ -46,7 +45,7 @@ Inductive bpc :=
 | BMark (k : nat)       (* entered ChunkStorage.StoreChunk: before markProcessed *)
 | BHas (k : nat)        (* marked the id (owner): before ws.HasChunk *)
 | BStore (k : nat)      (* before ws.StoreChunk *)
-| BUnmark (k : nat)     (* ws.StoreChunk failed: deferred unmarkProcessed pending *)
+| BUnmark (k : nat)     (* ws.HasChunk or ws.StoreChunk failed: deferred unmarkProcessed pending *)
 | BGet (k : nat)        (* copy: before src.GetChunk *)
 | BErr (k : nat).       (* body returned an error; about to return it to the errgroup *)
 
@@ -161,8 +160,8 @@ Section BulkWrite.
     | BMark k =>                                  (* markProcessed *)
         if memN (jid k) (b_proc s) then Some (set_w (add_done s k) i BIdle)
         else Some (set_w (set_proc s (jid k :: b_proc s)) i (BHas k))
-    | BHas k =>                                   (* s.ws.HasChunk *)
-        if fault OpHas (b_nhas s) then Some (set_w (count s OpHas true) i (BErr k))
+    | BHas k =>                                   (* s.ws.HasChunk; on error the deferred unmark runs *)
+        if fault OpHas (b_nhas s) then Some (set_w (count s OpHas true) i (BUnmark k))
         else if has (b_store s) (jid k) then Some (set_w (add_done (count s OpHas false) k) i BIdle)
         else Some (set_w (count s OpHas false) i (BStore k))
     | BStore k =>                                 (* ws.StoreChunk *)
@@ -241,13 +240,15 @@ End BulkWrite.
 
 (* ChunkStorage.StoreChunk run to completion with no other call in flight (the steps
    BMark / BHas / BStore / BUnmark of one worker composed): result (true = nil), new
-   processed set, new store.  [fail_has] / [fail_store]: the ws call fails. *)
-Definition cs_store_seq (proc : list id) (st : store) (i : id) (b : bytes) (fail_has fail_store : bool)
+   processed set, new store.  [fail_has] / [fail_store]: the ws call fails.
+   [fixed = false] is the code before "fix: ChunkStorage unmarks a chunk when checking the
+   store for it fails": the deferred unmark was installed after the HasChunk call. *)
+Definition cs_store_seq (fixed : bool) (proc : list id) (st : store) (i : id) (b : bytes) (fail_has fail_store : bool)
   : bool * list id * store :=
   if memN i proc then (true, proc, st)
   else
     let proc' := i :: proc in
-    if fail_has then (false, proc', st)                       (* the id stays marked *)
+    if fail_has then (false, if fixed then delN i proc' else proc', st)   (* before the fix the id stayed marked *)
     else if has st i then (true, proc', st)
     else if fail_store then (false, delN i proc', st)         (* deferred unmarkProcessed *)
     else (true, proc', (i, b) :: st).
